@@ -90,6 +90,10 @@ def in_band(cmp, r, xi):
     return (r < xi < th) if cmp in ('>', '>=') else (th < xi < r)
 
 
+def finite_all(rels, x):
+    return all(math.isfinite(rel.rhs.eval(x, 'float')) for rel, _, _ in rels)
+
+
 def judge(rels, x, y, tally=None, small=False):
     """rels: list of (Relation, lhs index, banded).  -> list of (clause, extra sig, text)"""
     out = []
@@ -120,7 +124,7 @@ def judge(rels, x, y, tally=None, small=False):
             continue
         hout = rel.holds(y, 'float')
         if not hout:
-            out.append(('relation_fails', {'cmp': rel.cmp, 'rhs_finite': math.isfinite(r)},
+            out.append(('relation_fails', {'cmp': rel.cmp, 'rhs_finite': finite_all(rels, x)},
                         '%r does not hold at the output %r (input %r, right-hand side %r)' % (rel.text, y, x, r)))
         # cross-check in exact rationals
         if all(math.isfinite(v) for v in y):
@@ -135,7 +139,7 @@ def judge(rels, x, y, tally=None, small=False):
             if tally is not None:
                 tally.hist('tolerance_band_input', 'left unchanged' if not moved else 'moved to the documented margin')
             if not ok:
-                out.append(('band_value', {'cmp': '+'.join(r.cmp for r, _, _ in rels)},
+                out.append(('band_value', {'cmp': '+'.join(r.cmp for r, _, _ in rels), 'rhs_finite': finite},
                             'input %r inside the tolerance margin became %r: neither unchanged nor the documented margin' % (x, y)))
         elif moved:
             out.append(('feasible_changed', {'cmp': '+'.join(r.cmp for r, _, _ in rels), 'rhs_finite': finite},
@@ -206,8 +210,8 @@ def run_program(T, kind, name, text, variables, nvars, points, containers, sigba
                 sig = dict(clause=clause, **extra)
                 if extra.get('rhs_finite', True):
                     sig.update(sigbase)       # finite right-hand side: keep the configuration in the signature
-                else:
-                    sig['part'] = sigbase['part']
+                else:                         # some right-hand side overflowed to +-inf: one root cause, keep it coarse
+                    sig = {'clause': clause, 'rhs_finite': False}
                 T.violate(sig, case, '[%s %s nvars=%r %s] %s' % (kind, name, nvars, 'ndarray' if array else 'list', msg))
             if not array and any(not same(a, b) for a, b in zip(x, y)):
                 T.nontriv((text, name, nvars, tuple(x)))
